@@ -237,13 +237,18 @@ Proof.
 Qed.
 
 (* exists / get / first *)
+Lemma py_slice_firstn (R : list A) k : 0 <= k -> py_slice R None (Some k) = firstn (Z.to_nat k) R.
+Proof.
+  intros Hk. pose proof (zlen_nonneg R). unfold py_slice, adjust. destruct (k <? 0) eqn:E; [lia|].
+  change (firstn (Z.to_nat k) R) with (seg R 0 k). apply seg_eq; unfold eff_cnt; lia.
+Qed.
+
+(* derived from the general slice theorem, so that it does not depend on the shape of Query.__getitem__ *)
 Lemma getitem_firstn q k :
   window_ok (q_window q) = true -> 1 <= k ->
   ok_list (q_getitem eqb q None (Some k)) = firstn (Z.to_nat k) (q_list q).
 Proof.
-  intros Hq Hk. unfold q_getitem, query_getitem. destruct (0 >=? k) eqn:E; [lia|]. cbn [fetch_res ok_list].
-  rewrite fetch_as_list by (auto; unfold window_ok, onat; cbn [fst snd]; lia).
-  unfold win; cbn [fst snd Z.to_nat skipn]. f_equal. lia.
+  intros Hq Hk. rewrite getitem_list by (auto; cbn; lia). cbn [ok_list]. apply py_slice_firstn. lia.
 Qed.
 
 Theorem exists_list q : window_ok (q_window q) = true ->
@@ -367,6 +372,10 @@ Proof.
   rewrite dedup_NoDup; auto using NoDup_filter.
 Qed.
 
+Theorem bulk_delete_both q : q_window q = no_window -> (eff_distinct q = false \/ NoDup (q_rows q)) ->
+  Permutation (bulk_deleted q) (q_list q) /\ plain_deleted eqb q = q_list q.
+Proof. intros Hw H. split; [exact (bulk_delete_exact q Hw H) | reflexivity]. Qed.
+
 End QueryProofs.
 
 (* ------------------------------------------------------------------------------------------------ aggregates *)
@@ -489,3 +498,45 @@ Proof.
 Qed.
 
 End AggregateProofs.
+
+(* ------------------------------------------------------------------------------------------------ group_concat, count() of tuples *)
+
+Section MoreAggregates.
+
+(* an unordered query whose DISTINCT agrees with the method's: the concatenated values are list(q), in order *)
+Theorem group_concat_list arg (q : query (A:=Z)) : q_window q = no_window -> has_order q = false ->
+  eff_distinct q = match arg with Some d => d | None => false end ->
+  q_group_concat arg q = Ok (q_list Z.eqb q).
+Proof.
+  intros Hw Ho Hd. unfold q_group_concat. rewrite Hw. cbn [combine no_window fst snd combine_limit_and_offset].
+  rewrite (q_list_no_window Z.eqb q Hw). unfold full. rewrite Hd.
+  unfold has_order in Ho. destruct (q_order q); [|discriminate]. now rewrite isort_nil_keys.
+Qed.
+
+Lemma zz_eqb_spec x y : zz_eqb x y = true <-> x = y.
+Proof.
+  destruct x as [a b], y as [c d]. unfold zz_eqb; cbn. rewrite andb_true_iff, !Z.eqb_eq.
+  split; [intros [-> ->]; reflexivity | intros H; inversion H; auto].
+Qed.
+
+(* count() of a tuple query that is executed without DISTINCT is len(list(q)) *)
+Theorem count_pair_list (q : query (A:=Z * Z)) : q_window q = no_window -> eff_distinct q = false ->
+  q_count_pair None q = Ok (zlen (q_list zz_eqb q)).
+Proof.
+  intros Hw Hd. unfold q_count_pair. rewrite Hw, Hd. cbn [combine no_window fst snd combine_limit_and_offset negb andb].
+  rewrite (q_list_no_window zz_eqb q Hw). unfold full. rewrite Hd. cbn [dedup_if].
+  f_equal. symmetry. apply zlen_perm, isort_perm.
+Qed.
+
+End MoreAggregates.
+
+(* count() of an entity query (rows are distinct objects) is len(list(q)) *)
+Theorem count_rows_list {A} (eqb : A -> A -> bool) (eqb_spec : forall x y, eqb x y = true <-> x = y) (q : query (A:=A)) :
+  q_window q = no_window -> NoDup (q_rows q) -> q_count_rows q = Ok (zlen (q_list eqb q)).
+Proof.
+  intros Hw Hn. unfold q_count_rows. rewrite Hw. cbn [combine no_window fst snd combine_limit_and_offset].
+  rewrite (q_list_no_window eqb q Hw). unfold full. f_equal. symmetry.
+  rewrite (zlen_perm _ _ (isort_perm _ _)).
+  destruct (eff_distinct q); cbn [dedup_if]; [|reflexivity].
+  rewrite dedup_NoDup; auto using NoDup_filter.
+Qed.
